@@ -315,3 +315,43 @@ func ZZH_C15_TOCIdempotent() {
 	}
 	zzvReach("toc")
 }
+
+// Generating a table of contents again with another requested level: afterwards the document
+// holds a table of contents that lists exactly the headings up to the level of the latest request
+// (a level-1 and a level-3 heading with symbolic texts; first and second requested level 1..4).
+func ZZH_C15_RegenerateTOC() {
+	d := New()
+	t1, t3 := zzhHeadingText(), zzhHeadingText()
+	title := DefaultTOCConfig().Title
+	zzvAssume(t1 != t3 && t1 != title && t3 != title)
+	// the page-number column of an entry reads "<tab><number>": not a heading text here
+	zzvAssume(!zzvStrHasPrefix(t1, "\t") && !zzvStrHasPrefix(t3, "\t"))
+	d.AddHeadingParagraph(t1, 1)
+	d.AddParagraph("text")
+	d.AddHeadingParagraph(t3, 3)
+	m1, m2 := 1+zzvChoice(4), 1+zzvChoice(4)
+	cfg := DefaultTOCConfig()
+	cfg.MaxLevel = m1
+	zzvAssert(d.GenerateTOC(cfg) == nil, "GenerateTOC succeeds")
+	cfg2 := DefaultTOCConfig()
+	cfg2.MaxLevel = m2
+	zzvAssert(d.GenerateTOC(cfg2) == nil, "GenerateTOC succeeds a second time")
+	found := false
+	for _, el := range d.Body.Elements {
+		s, ok := el.(*SDT)
+		if !ok || s.Content == nil || s.Properties == nil || s.Properties.DocPartObj == nil || s.Properties.DocPartObj.DocPartGallery == nil ||
+			s.Properties.DocPartObj.DocPartGallery.Val != "Table of Contents" {
+			continue
+		}
+		var texts []string
+		zzhCollectTexts(s.Content.Elements, &texts)
+		has1, has3 := false, false
+		for _, e := range texts {
+			has1 = zzvOr(has1, e == t1)
+			has3 = zzvOr(has3, e == t3)
+		}
+		found = zzvOr(found, zzvAnd(has1, has3 == (m2 >= 3)))
+	}
+	zzvAssert(found, "after a table of contents was generated again, a table of contents lists exactly the headings up to the level requested last")
+	zzvReach("regenerated")
+}
